@@ -16,7 +16,7 @@ from ..core import sym
 from ..core.absint import Config, Interp
 from ..core.loader import AnalysisError, FunctionInfo, Project
 from ..core.values import Sc
-from .common import local_names, own_analysis
+from .common import local_names, norm_construct, own_analysis
 
 CL = "persim.landscapes.exact.PersLandscapeExact"
 
@@ -228,11 +228,12 @@ def run(project: Project, rep, tier: str):
                 inner = inner.args[0] if inner.args else inner.func.value
             if isinstance(inner, ast.Subscript) and isinstance(inner.value, ast.Name) and inner.value.id == holder:
                 loops = _enclosing_loops(f, c)
-                hdr = _loop_header(loops[-1]) if loops else "top level"
+                hdr_nodes = ([loops[-1].target, loops[-1].iter] if loops and isinstance(loops[-1], ast.For) else
+                             ([loops[-1].test] if loops else []))
                 rep.refuted("LX-NOCOPY", fi, c,
                             "a depth is produced by copying another depth instead of continuing the sweep: for a repeated bar "
                             "the next landscape function is not equal to the previous one in general",
-                            construct=f"{hdr}: {ast.unparse(c)}",
+                            construct="loop " + norm_construct(f, *hdr_nodes, c),
                             failing_input="[[1,5],[1,5],[3,6]]: depth 2 is a copy of depth 1; true depth 2 is [[1,0],[3,2],[5,0]]")
     if n_app:
         rep.discharged("LX-NOCOPY", fi, f, f"{n_app} append/extend/insert sites inspected", nontrivial=False)
@@ -249,7 +250,7 @@ def run(project: Project, rep, tier: str):
                         rep.refuted("LX-ITER", fi, c,
                                     f"`{c.func.value.id}` is structurally mutated inside a `for` that keeps iterating it: elements "
                                     f"are skipped (every other duplicate survives)",
-                                    construct=f"{_loop_header(lp)}: {ast.unparse(c)}",
+                                    construct="loop " + norm_construct(f, lp.target, lp.iter, c),
                                     failing_input="[[1,5],[1,5],[1,5],[3,6]]: only one of two extra duplicates is removed")
                     else:
                         rep.discharged("LX-ITER", fi, c, f"mutation of `{c.func.value.id}` inside a loop over it is followed "
